@@ -151,6 +151,15 @@ def operators(ctx, envs):
             bsnap = env.snapshot(sb, b)
             A, B = set(sa[1]), set(sb[1])
             want = {"|": A | B, "&": A & B, "-": A - B, "^": A ^ B}[sym[0]]
+            if inplace and rng.random() < 0.1:
+                # the target (and the operand) live in a database and have been evicted
+                from harness.minijar import Storage, Jar
+                jar_ = Jar(Storage())
+                for o_ in (a, b):
+                    if hasattr(o_, "_p_oid"):
+                        jar_.add(o_)
+                jar_.commit()
+                jar_.minimize()
             barg = b
             if inplace and rng.random() < 0.08:
                 barg = a                  # s |= s, s &= s, s -= s, s ^= s
